@@ -457,10 +457,17 @@ def run(chk):
     dm = chk.repo.cls(*DAILY_MODEL)
     cp = method(chk, dm, "_create_params_from_fit_model")
     ps = method(chk, dm, "_predict_submodel")
+    # what the writer stores under each limit name, read off the interpreted writer (rules/daily_roundtrip.py)
+    from rules.daily_roundtrip import written_limits
+    try:
+        wl = written_limits(chk, dm, cp, method(chk, dm, "from_dict"))
+    except Unsupported as e:
+        raise AnalysisError(f"{cp.key}: outside the interpreted subset: {e}")
     written = {}
-    for n in ast.walk(cp.node):
-        if isinstance(n, ast.Assign) and unparse(n.targets[0]) == "temperature_constraints" and isinstance(n.value, ast.Dict):
-            written = {const_str(k): unparse(v) for k, v in zip(n.value.keys, n.value.values)}
+    for sub_key, lim in wl.items():
+        for k_, v_ in lim.items():
+            src = v_[len(sub_key) + 1:] if v_.startswith(sub_key + ".") else v_
+            written[k_] = "submodel." + src if v_.startswith(sub_key + ".") else v_
     from rules.evaluators import evaluator_outcomes
     read = set()
     for mk_, o_ in evaluator_outcomes(chk, ps, "stored").items():
